@@ -35,9 +35,28 @@ func zzScalar(pos int) []byte {
 	n := v.Choose(0, 2)
 	out := []byte{'"'}
 	for i := 0; i < n; i++ {
-		c := v.Byte()
-		v.Assume(c >= 0x20 && c < 0x7f && c != '"' && c != '\\')
-		out = append(out, c)
+		switch v.Choose(0, 3) {
+		case 0:
+			c := v.Byte()
+			v.Assume(c >= 0x20 && c < 0x7f && c != '"' && c != '\\')
+			out = append(out, c)
+		case 1:
+			// every one-character escape of RFC 8259
+			c := v.Byte()
+			v.Assume(c == '"' || c == '\\' || c == '/' || c == 'b' || c == 'f' || c == 'n' || c == 'r' || c == 't')
+			out = append(out, '\\', c)
+		case 2:
+			out = append(out, '\\', 'u')
+			for k := 0; k < 4; k++ {
+				h := v.Byte()
+				v.Assume(('0' <= h && h <= '9') || ('a' <= h && h <= 'f') || ('A' <= h && h <= 'F'))
+				out = append(out, h)
+			}
+		default:
+			c := v.Byte()
+			v.Assume(c >= 0x80)
+			out = append(out, c)
+		}
 	}
 	return append(out, '"')
 }
